@@ -98,22 +98,28 @@ Definition in_place_version (o : mop) : mop :=
 
 Lemma effect_ignores_flag m o : effect m (in_place_version o) = effect m o.
 Proof. destruct o; reflexivity. Qed.
-Lemma in_place_version_in_place o : o <> OCopy -> in_place_of (in_place_version o) = true.
+Lemma in_place_version_in_place o : o <> OCopy -> o <> OToQasm3 -> in_place_of (in_place_version o) = true.
 Proof. destruct o; simpl; congruence. Qed.
 
 Theorem not_in_place_is_effect_on_copy w i o m m' :
-  in_place_of o = false -> o <> OCopy -> nth_error w i = Some m -> effect m o = Some (Ok m') ->
+  in_place_of o = false -> o <> OCopy -> o <> OToQasm3 -> nth_error w i = Some m -> effect m o = Some (Ok m') ->
   step w i o = (w ++ [m'], OutNew) /\
   (* the same state an in-place call produces on a world holding only a copy of m *)
   step [m] 0 (in_place_version o) = ([m'], OutUnit).
 Proof.
-  intros Hip Hc Hn He. split.
+  intros Hip Hc Hq Hn He. split.
   - unfold step. now rewrite Hn, He, Hip.
   - unfold step. cbn [nth_error]. rewrite effect_ignores_flag, He, in_place_version_in_place by assumption. reflexivity.
 Qed.
 
 Theorem copy_is_identical w i m : nth_error w i = Some m -> step w i OCopy = (w ++ [m], OutNew).
 Proof. intros H. unfold step. now rewrite H. Qed.
+
+(* to_qasm3() of a version-2 module: a new version-3 module holding the current program with the include rewritten;
+   the world (the version-2 module included) is untouched *)
+Theorem to_qasm3_is_a_new_module w i m : nth_error w i = Some m -> sp_q2 m = true ->
+  step w i OToQasm3 = (w ++ [mkMS (Qasm2.to_qasm3 (sp_prog m)) false false], OutNew).
+Proof. intros H Hq. unfold step. rewrite H. cbn [effect]. rewrite Hq. reflexivity. Qed.
 
 (* ---------- a rejected call leaves no trace ---------- *)
 Theorem failed_call_leaves_world w i o e : snd (step w i o) = OutErr e ->
